@@ -1,5 +1,7 @@
 import QeepProps.C08
+import QeepProps.C03
 import QeepProofs.Vals
+import QeepProofs.BcastSum
 /-!
 # C07 — the gradient of a broadcast operand is the sum over its expanded copies
 
@@ -13,7 +15,13 @@ real code equals the `mean` instance on every program.
   rule sits on every implicit expansion (the result's back edges target the two broadcast results, whose own back
   edge is the `Broadcast` rule towards the original operand).
 
-Not proved yet: that the `sum` instance is the vector-Jacobian product for every shape pair.
+* `bcast_rule_sum_is_sum_over_copies` — for EVERY accepted shape pair and every upstream gradient, the rule in `sum` mode
+  succeeds, delivers a gradient of the operand's own shape, and its element at `idx` is the iterated sum of the upstream
+  gradient over every position `idx` was copied to (`copiesSum`: extra leading dims and expanded size-1 dims run over
+  their whole range, unexpanded dims are fixed to `idx`'s coordinate) — nested in the order the code adds, so the
+  statement is exact for any scalar type.
+* `broadcast_node_rule` — the same for the back edge of an actual `Broadcast` result in a heap (the validator hypothesis
+  is discharged by the forward call having succeeded).
 -/
 set_option linter.unusedSimpArgs false
 
@@ -84,6 +92,44 @@ theorem arith_routes_through_broadcast (o : Arith) (a b : Nat) (H H' : Heap α) 
   obtain ⟨_, _, cr, _⟩ := alloc_ok k5
   refine ⟨a1, b1, Ha, Hb, _, g1, g2, ca, cb, _, cr, ?_⟩
   cases o <;> rfl
+
+/-- **The `Broadcast` backward rule in `sum` mode is the sum over the expanded copies** — every accepted shape pair,
+    every well-formed upstream gradient of the target shape. -/
+theorem bcast_rule_sum_is_sum_over_copies (H : Heap α) (x y : Nat) (gy : Tensor α) (hwf : gy.WF)
+    (hd : gy.dims = (H.val y).dims) (hv : validBroadcast (H.val x).dims (H.val y).dims = true) :
+    ∃ g, evalRule .sum H gy (.bcastX x y) = .ok g ∧ g.WF ∧ g.dims = (H.val x).dims ∧
+      ∀ idx, Valid (H.val x).dims idx → g.el idx = copiesSum (H.val x).dims (H.val y).dims idx gy := by
+  unfold evalRule
+  exact bcastRule_sum_spec _ _ gy hwf hd hv
+
+/-- the rule on the back edge of an actual `Broadcast` result: the forward call having succeeded is enough -/
+theorem broadcast_node_rule (x : Nat) (shape : List Int) (H H' : Heap α) (y : Nat) (hx : x < H.size) (hxw : (H.val x).WF)
+    (h : hBroadcast x shape H = .ok (y, H')) (gy : Tensor α) (hwf : gy.WF) (hd : gy.dims = (H'.val y).dims) :
+    (H'.val y).dims = natDims shape ∧
+    ∃ g, evalRule .sum H' gy (.bcastX x y) = .ok g ∧ g.WF ∧ g.dims = (H.val x).dims ∧
+      ∀ idx, Valid (H.val x).dims idx → g.el idx = copiesSum (H.val x).dims (natDims shape) idx gy := by
+  obtain ⟨hv, _, hext⟩ := hBroadcast_val h
+  have hvx : H'.val x = H.val x := hext.val hx
+  have hvalid : validInputDims shape = true ∧ validBroadcast (H.val x).dims (natDims shape) = true := by
+    apply Classical.byContradiction
+    intro hn
+    have := (C03.vBroadcast_total (H.val x) hxw shape).2 hn
+    rw [this] at hv
+    cases hv
+  obtain ⟨r, hr, hrd, _⟩ := (C03.vBroadcast_total (H.val x) hxw shape).1 hvalid
+  rw [hr] at hv
+  have hry : H'.val y = r := by cases hv; rfl
+  have hyd : (H'.val y).dims = natDims shape := by rw [hry, hrd]
+  refine ⟨hyd, ?_⟩
+  have := bcast_rule_sum_is_sum_over_copies H' x y gy hwf hd (by rw [hvx, hyd]; exact hvalid.2)
+  rw [hvx, hyd] at this
+  exact this
+
+/-- non-vacuity and a reading of `copiesSum`: `[2] → [3,2]`, element 1 receives gy[0][1] + gy[1][1] + gy[2][1] -/
+example : copiesSum [2] [3, 2] [1] (⟨[3, 2], [1, 10, 2, 20, 3, 30]⟩ : Tensor Int) = 60 := by decide
+
+/-- `[2,1] → [2,3]`: element [1,0] receives the sum of row 1 -/
+example : copiesSum [2, 1] [2, 3] [1, 0] (⟨[2, 3], [1, 2, 3, 10, 20, 30]⟩ : Tensor Int) = 60 := by decide
 
 end C07
 end Qeep
